@@ -43,6 +43,7 @@ type Conn struct {
 	writeErrAt int // fail the k-th Write from now (1-based); 0 = never
 	nWrites    int
 	writeGate  chan struct{} // if non-nil, every Write waits for a token (slow server)
+	closeDelay time.Duration
 	reads      int
 }
 
@@ -121,6 +122,12 @@ func (c *Conn) Write(p []byte) (int, error) {
 
 func (c *Conn) Close() error {
 	c.mu.Lock()
+	d := c.closeDelay
+	c.mu.Unlock()
+	if d > 0 { // a close that takes a while (TLS close_notify to a stalled peer, say)
+		time.Sleep(d)
+	}
+	c.mu.Lock()
 	defer c.mu.Unlock()
 	c.closed = true
 	c.cond.Broadcast()
@@ -157,6 +164,9 @@ func (c *Conn) ReadError(err error) { c.mu.Lock(); c.readErr = err; c.cond.Broad
 
 // FailWriteAfter makes the k-th Write from now fail (k >= 1).
 func (c *Conn) FailWriteAfter(k int) { c.mu.Lock(); c.writeErrAt = c.nWrites + k; c.mu.Unlock() }
+
+// SetCloseDelay makes Close take that long.
+func (c *Conn) SetCloseDelay(d time.Duration) { c.mu.Lock(); c.closeDelay = d; c.mu.Unlock() }
 
 // GateWrites makes every Write wait for a token from the returned channel.
 func (c *Conn) GateWrites() chan struct{} {
